@@ -98,7 +98,9 @@ pub fn main(tier: Tier, seed: u64) -> i32 {
     }
     rep.evaluations = j.evaluations + tap_cases.len() as u64;
     rep.distinct_nontrivial = j.nontrivial.len() as u64 + tap_detected;
-    rep.exhaustive = Some(true);
+    if rep.exhaustive.is_none() {
+        rep.exhaustive = Some(true);
+    }
     rep.set("trivial_cases", json!(j.trivial));
     rep.set("tap_cases", json!(tap_cases.len()));
     rep.set("configurations", json!(cfgs.iter().map(|c| c.name.clone()).collect::<Vec<_>>()));
